@@ -44,12 +44,59 @@ type Carrier struct {
 	Resp bool `json:"resp,omitempty"`
 	// FailedBefore failed attempts (with an Err and no response) precede the attempt carrying the response.
 	FailedBefore int `json:"failedbefore,omitempty"`
+	// Status of the action in a stored plan: 0 = the plan's status, else workflow.Status (100 NotStarted, 200 Running,
+	// 300 Completed, 400 Failed ...) given as 1 NotStarted, 2 Running, 3 Completed, 4 Failed. The status of the holding
+	// sequence / check group is derived from its actions. This is what WithRemoveCompletedSequences looks at.
+	Status int `json:"status,omitempty"`
 }
 
 // LeakCase is the clone / report half of C17.
 type LeakCase struct {
 	Carriers []Carrier `json:"carriers"`
 	State    int       `json:"state"`
+	// FillGroups (stored plans): every non-bypass plan-level check group that no carrier sits in is added with one
+	// action that has no request, in status FillStatus (coded like Carrier.Status). clone.Plan with
+	// WithRemoveCompletedSequences reads the State of all four groups once no block is left.
+	FillGroups bool `json:"fillgroups,omitempty"`
+	FillStatus int  `json:"fillstatus,omitempty"`
+}
+
+// statusOf decodes Carrier.Status / LeakCase.FillStatus; 0 and unknown codes give the fallback.
+func statusOf(code int, fallback workflow.Status) workflow.Status {
+	switch code {
+	case 1:
+		return workflow.NotStarted
+	case 2:
+		return workflow.Running
+	case 3:
+		return workflow.Completed
+	case 4:
+		return workflow.Failed
+	}
+	return fallback
+}
+
+// derivedStatus is the status of a sequence / check group whose actions have the given statuses.
+func derivedStatus(acts []*workflow.Action) workflow.Status {
+	completed, started := 0, false
+	for _, a := range acts {
+		switch a.State.Status {
+		case workflow.Failed:
+			return workflow.Failed
+		case workflow.Completed:
+			completed++
+			started = true
+		case workflow.Running:
+			started = true
+		}
+	}
+	switch {
+	case len(acts) > 0 && completed == len(acts):
+		return workflow.Completed
+	case started:
+		return workflow.Running
+	}
+	return workflow.NotStarted
 }
 
 type builtCarrier struct {
@@ -132,6 +179,12 @@ func buildPlan(lc *LeakCase) *builtPlan {
 			ID: id(), State: state(),
 		}
 		isResp := c.Resp && stored
+		if lc.State == stRunning || lc.State == stFailed { // a Completed plan has nothing but Completed objects
+			act.State.Status = statusOf(c.Status, status)
+			if isResp && act.State.Status == workflow.NotStarted {
+				act.State.Status = workflow.Running // an action with an attempt has been started
+			}
+		}
 		val := vb.top(&c.T, c.TopPtr)
 		if isResp {
 			for k := 0; k < c.FailedBefore; k++ {
@@ -181,6 +234,31 @@ func buildPlan(lc *LeakCase) *builtPlan {
 				Name: "fill", Descr: "action descr", Plugin: "plug", Timeout: 30 * time.Second, ID: id(), State: state(),
 			}},
 		})
+	}
+	if stored && lc.FillGroups {
+		for g := 1; g < 5; g++ { // pre, cont, post, deferred
+			if planGroups[g] != nil {
+				continue
+			}
+			st := state()
+			if lc.State == stRunning || lc.State == stFailed {
+				st.Status = statusOf(lc.FillStatus, status)
+			}
+			planGroups[g] = &workflow.Checks{ID: id(), State: state(), Actions: []*workflow.Action{{
+				Name: "fill-" + groupNames[g], Descr: "action descr", Plugin: "plug", Timeout: 30 * time.Second, ID: id(), State: st,
+			}}}
+		}
+	}
+	if stored {
+		// the status of a sequence / check group follows from its actions
+		for _, sq := range seqs {
+			sq.State.Status = derivedStatus(sq.Actions)
+		}
+		for _, g := range append(append([]*workflow.Checks(nil), planGroups...), blockGroups...) {
+			if g != nil {
+				g.State.Status = derivedStatus(g.Actions)
+			}
+		}
 	}
 	blk.Sequences = seqs
 	p.BypassChecks, p.PreChecks, p.ContChecks, p.PostChecks, p.DeferredChecks =
